@@ -5,6 +5,7 @@ line  →  the parsed test case must have the same shell expression, no exit cod
 whose rule (its real `matches` on the MIR) accepts L.  Both escaping modes; Markdown (one command per block) and Cram (`$` starts
 a new command) line-parser modes.  The regex engine is replaced by lib/miniregex.py as in C08.  Fence sizing: `max_backtick_size`.
 Whole-document generation (titles, config one-liner, indentation) and multi-line outputs are outside."""
+import itertools
 import random
 import re
 
@@ -204,6 +205,128 @@ def h_generated(max_u, mode, cram):
     return h
 
 
+def h_generated_multi(mode, cram):
+    """`update` of a failing test with several output lines: some lines still match an existing expectation (they are re-emitted as
+    written), runs of the others are written anew.  Each line is one symbolic letter + 'x'; the last line has a final newline or not."""
+    from mir_exec import find_method as fm
+
+    def mk(pattern, nl):
+        def setup(ctx):
+            lines = []
+            for j in range(len(pattern)):
+                ch = ctx.sym_char("c%d" % j, 1)
+                ctx.add(z3.Or(ch.z() == ord("a"), ch.z() == ord("b")))
+                content = [ch, SInt(ord("x"), "char")]
+                body = []
+                for c_ in content:
+                    body += utf8_bytes(ctx, c_)
+                last = j == len(pattern) - 1
+                lines.append({"content": content, "bytes": body + ([SInt(10, "u8")] if (nl or not last) else []), "eol": nl or not last})
+            ctx.notes["lines"] = lines
+            ctx.notes["pattern"] = pattern
+            return [Agg("Escaper", mode, []), SBool(cram)]
+        return setup
+
+    def drive_multi(ctx, args):
+        """generate_testcase(outcome whose diff has matched and unexpected lines) → LineParser → every parsed expectation's real matches()"""
+        prog = ctx.program
+        escaper, cram_ = args
+        lines, pattern = ctx.notes["lines"], ctx.notes["pattern"]
+        maker = get_maker(ctx)
+        parse = fm(prog, "src/expectation.rs", "parse")
+        fail = lambda why: Agg("tuple", None, [SBool(False), Str([SInt(ord(c), "char") for c in why])])
+        diff_lines = []
+        j = 0
+        exp_index = 0
+        old_expectations = []
+        while j < len(lines):
+            if pattern[j] == "M":
+                # the existing expectation of a line that still matches: the text an earlier `create` wrote for it
+                text = list(lines[j]["content"]) + ([] if lines[j]["eol"] else [SInt(ord(c), "char") for c in " (no-eol)"])
+                r = ctx.call(parse, [new_ref(maker), Str(text)])
+                if r.variant != "Ok":
+                    raise Unsupported("existing expectation does not parse")
+                old_expectations.append(r.fields[0])
+                diff_lines.append(Agg("DiffLine", "MatchedExpectation", [mk_int(exp_index, "usize"), r.fields[0],
+                                                                        VecBuf([Agg("tuple", None, [mk_int(j, "usize"), VecBuf(list(lines[j]["bytes"]), "u8")])])]))
+                exp_index += 1
+                j += 1
+            else:
+                run = []
+                while j < len(lines) and pattern[j] == "U":
+                    run.append(Agg("tuple", None, [mk_int(j, "usize"), VecBuf(list(lines[j]["bytes"]), "u8")]))
+                    j += 1
+                diff_lines.append(Agg("DiffLine", "UnexpectedLines", [VecBuf(run)]))
+        out_bytes = [b for ln in lines for b in ln["bytes"]]
+        diff = mk_struct("Diff", lines=VecBuf(diff_lines), count_matched=mk_int(0, "usize"), count_unmatched=mk_int(0, "usize"),
+                         count_output_lines=mk_int(len(lines), "usize"))
+        tc = mk_struct("TestCase", title=StringBuf([]), shell_expression=StringBuf([SInt(ord(c), "char") for c in "cmd"]), expectations=VecBuf(old_expectations),
+                       exit_code=none(), line_number=mk_int(1, "usize"), config=Opaque("config"))
+        out = mk_struct("Output", stderr=Agg("OutputStream", None, [VecBuf([], "u8")]), stdout=Agg("OutputStream", None, [VecBuf(out_bytes, "u8")]),
+                        exit_code=Agg("ExitStatus", "Code", [mk_int(0, "i32")]))
+        outcome = mk_struct("Outcome", location=none(), output=out, testcase=tc, format=Opaque("format"), escaping=escaper,
+                            result=Agg("Result", "Err", [Agg("TestCaseError", "MalformedOutput", [diff])]))
+        g = ctx.call(fm(prog, "generators/outcome.rs", "generate_testcase"), [new_ref(outcome)])
+        if g.variant != "Ok":
+            return fail("generator refused")
+        text = list(as_str(g.fields[0]).chars)
+        ctx.notes["generated"] = text
+        glines, cur = [], []
+        for ch in text:
+            if ctx.decide(char_eq(ch, SInt(10, "char"))):
+                glines.append(cur)
+                cur = []
+            else:
+                cur.append(ch)
+        if cur:
+            glines.append(cur)
+        lp = ctx.call(prog.resolve_call("LineParser::new"), [maker, SBool(bool(cram_.v))])
+        cell = new_ref(lp, True)
+        add = prog.resolve_call("LineParser::add_testcase_body")
+        for i, ln in enumerate(glines):
+            r = ctx.call(add, [cell, Str(ln), mk_int(i, "usize")])
+            if r.variant != "Ok":
+                return fail("generated test does not parse")
+        r = ctx.call(prog.resolve_call("LineParser::end_testcase"), [cell, mk_int(len(glines), "usize")])
+        if r.variant != "Ok":
+            return fail("generated test does not parse")
+        tests = as_items(field_of(cell.loc.get(), "testcases"))
+        if len(tests) != 1:
+            return fail("%d test cases instead of 1" % len(tests))
+        exps = as_items(field_of(tests[0], "expectations"))
+        if len(exps) != len(lines):
+            return fail("%d expectations for %d output lines" % (len(exps), len(lines)))
+        conds = []
+        for e, ln in zip(exps, lines):
+            if e.fields[0].v or e.fields[1].v:
+                return fail("expectation carries a quantifier")
+            m = rule_matches(ctx, e.fields[2], Slice(list(ln["bytes"]), "u8"))
+            conds.append(m.v if m.concrete else m.z())
+        good = z_and(conds)
+        return Agg("tuple", None, [sbool(good), Str([SInt(ord(c), "char") for c in "an expectation does not match its line"])])
+
+    def post2(ctx, args, kind, value):
+        if kind != "return":
+            return False
+        good = value.fields[0]
+        return good.v if good.concrete else good.z()
+    inputs = []
+    for n in (2, 3):
+        for pattern in itertools.product("MU", repeat=n):
+            if "U" not in pattern:
+                continue
+            for nl in (True, False):
+                inputs.append(("lines=%s final-newline=%s" % ("".join(pattern), nl), mk("".join(pattern), nl)))
+    h = e2.Harness("updated_test_passes_multiline_%s_%s" % ("cram" if cram else "markdown", mode.lower()), drive_multi, inputs, post2,
+                   native=None, judge=None,
+                   describe="update of a failing test with 2–3 output lines, some still matching their old expectation: the written block parses back "
+                            "to one quantifier-free expectation per output line, each matching its line",
+                   bound="2–3 output lines [ab]x; every pattern of still-matching / new lines with at least one new line; with/without final newline; "
+                         "%s escaping; %s line-parser mode" % (mode, "Cram" if cram else "Markdown"))
+    h.models_cls = GenModels
+    return h
+
+
 def h_backticks(max_bytes):
     def post(ctx, args, kind, value):
         if kind != "return" or not value.concrete:
@@ -257,12 +380,33 @@ def run(pid, tier):
         for mode in ("Unicode", "Ascii"):
             h = h_generated(2 if q else 3, mode, cram)
             e2.process(rep, prog, NAT, h, tier, to_native_args=lambda a, mode=mode: [a[0], mode.lower(), "cram" if a[2] else "markdown"], max_witnesses=40)
+    # update of a failing multi-line test: still-matching lines are re-emitted, runs of new lines are written anew
+    for cram in (False, True):
+        for mode in ("Unicode", "Ascii") if not q else ("Unicode",):
+            hm = h_generated_multi(mode, cram)
+            resm = e2.run_with_raw(prog, hm, max_witnesses=6)
+            for model, r in resm.raw_witnesses[:6]:
+                lines, pattern = r.ctx.notes["lines"], r.ctx.notes["pattern"]
+                texts = ["".join(chr(e2.model_int(model, c)) for c in ln["content"]) for ln in lines]
+                out = "".join(t + ("\n" if ln["eol"] else "") for t, ln in zip(texts, lines)).encode()
+                existing = [t + ("" if ln["eol"] else " (no-eol)") for t, ln, p_ in zip(texts, lines, pattern) if p_ == "M"]
+                nk, nv = NAT.call("generate_and_validate", [list(out), mode.lower(), "cram" if cram else "markdown", existing])
+                if nk != "return" or nv.get("passes") is not True:
+                    rep.violation("updated-test-fails:%s:multiline-%s" % ("cram" if cram else "markdown", "no-final-newline" if not lines[-1]["eol"] else "final-newline"),
+                                  "the %s test written by `update` (%s escaping) for the output %r of a test with expectations %r does not pass against that very "
+                                  "output: %s" % ("cram" if cram else "markdown", mode, out, existing, nv),
+                                  {"kind": "eval", "fn": "generate_and_validate", "args": [list(out), mode.lower(), "cram" if cram else "markdown", existing],
+                                   "native": [nk, nv], "harness": hm.name})
+                else:
+                    rep.mismatches.append("%s: solver witness %r / %r did not reproduce natively: %s" % (hm.name, out, existing, nv))
+            e2.record(rep, hm, resm)
     NAT.close()
     tot_paths = sum(s.get("paths", 0) for s in rep.subclaims)
     rep.coverage.update({
         "explanation": "SMT decision (z3) over bounded symbolic execution of the MIR of Outcome::generate_testcase (with the real escaper) "
                        "composed with LineParser::{add_testcase_body,end_testcase}, ExpectationMaker::parse and the parsed rule's matches(); "
-                       "regex engine replaced by lib/miniregex.py. One-line outputs; document-level rendering (titles, config, cram indentation) "
+                       "regex engine replaced by lib/miniregex.py. One-line outputs over syntax look-alikes, and 2–3-line outputs of a failing test whose "
+                       "diff mixes still-matching and new lines (the `update` path); document-level rendering (titles, config, cram indentation) "
                        "and the wildmatch engine are outside.",
         "functions_encoded": ["<Outcome as OutcomeTestGenerator>::generate_testcase", "Outcome::generate_testcase_expression", "Escaper::escaped_expectation",
                               "LineParser::{new,add_testcase_body,end_testcase,flush}", "line_parser::extract_exit_code", "ExpectationMaker::parse",
@@ -272,5 +416,6 @@ def run(pid, tier):
         "samples": [s for sc in rep.subclaims for s in sc.get("samples", [])][:4] or ["see subclaims"],
         "mir_dump_s": round(mir_s, 1),
     })
-    rep.assumptions += ["lib/miniregex.py regex semantics; std contract models", "single output line per test; exit code 0"]
+    rep.assumptions += ["lib/miniregex.py regex semantics; std contract models", "exit code 0; the diff handed to the generator in the multi-line "
+                        "claim is built by the harness (matched line = its own earlier expectation), the real diff is used in the native replay"]
     return rep.finish()
